@@ -245,7 +245,9 @@ def r3(cx, rec):
         outer = {k for k, v in wk.items() if v[2] == wk['announce'][2]}
         dist = wk['name'][0] != wk['announce'][0]
         rec.need(inner >= {'name', 'piece length', 'pieces', 'length'} or True, 'writer-nesting', W, None, '')
-        for c2 in F.children(W.path):
+        hashers = [x[1] for x in walk(wk['pieces'][1]) if x[0] in ('closure', 'fn') and F.fns.get(x[1]) is not None]
+        rec.need(bool(hashers), 'writer-hash', W, wk['pieces'][0], 'the value stored under "pieces" is not computed by a per-chunk function')
+        for c2 in hashers:
             cf = F.fns[c2]
             chain = [cf.expr_call(bb)[1].split('::')[-1] for bb in mirq.real_calls(cf)]
             rec.site(cf, None, 'chunk hasher: %s' % chain)
